@@ -330,6 +330,8 @@ C05 = dict(
         "c05_signable_tree": H("quick", "signable = TREE namespace || root hash || LE64(length) || LE64(fork)", "hash 32 bytes, length, fork full range", "none", rules=_HR, timeout=600),
     },
 )
+C05["mir"] = True
+C05["functions"] = C05["functions"] + ["MIR of hypercore::tree::merkle_tree::MerkleTree::truncate (stale roots are popped in a re-checked loop, on every path)"]
 PROPS["C05"] = C05
 
 # --------------------------------------------------------------------------------------------- C03
